@@ -2,8 +2,25 @@
 import json, os
 from verifkit import read_lines, VERIF
 
-REQUIRED = [
-]
+REQUIRED = ["DaeVerif.C07.Props." + n for n in (
+    "builder_accepts_wellformed",
+    "request_match_is_first_match",
+    "first_match_is_first",
+    "name_case_and_trailing_dot",
+    "request_select_is_first_match",
+    "response_match_is_first_match",
+    "response_match_empty_name",
+    "response_select_is_first_match",
+    "response_addresses",
+    "reject_beats_cache",
+    "cache_hit_asks_nobody",
+    "question_goes_to_selected_upstream",
+    "response_action",
+    "final_answer_is_relayed_and_cached",
+    "reask_bounded",
+    "bouncing_ends_with_error",
+    "response_bit_refused",
+)]
 
 
 def run(ctx):
